@@ -14,10 +14,22 @@ def LinesOk (N : Nat) (ts : List LTok) : Prop := ∀ t ∈ ts, 1 ≤ t.line ∧ 
 def InB (N l : Nat) : Prop := 1 ≤ l ∧ l ≤ N
 
 /-- a parser result is safe: an error cites a line within bounds; a success leaves tokens
-within bounds and a value satisfying `Q` -/
-def Safe {α : Type} (N : Nat) (Q : α → Prop) : Except SynErr (α × List LTok) → Prop
-  | .error e => InB N e.line
-  | .ok (a, r) => LinesOk N r ∧ Q a
+within bounds and a value satisfying `Q` (stated without a `match`, so that `split` only ever
+sees the matches of the parser under study) -/
+def Safe {α : Type} (N : Nat) (Q : α → Prop) (res : Except SynErr (α × List LTok)) : Prop :=
+  (∀ e, res = .error e → InB N e.line) ∧ (∀ a r, res = .ok (a, r) → LinesOk N r ∧ Q a)
+
+theorem Safe.ok {α : Type} {N : Nat} {Q : α → Prop} {a : α} {r : List LTok} (hr : LinesOk N r) (hq : Q a) :
+    Safe N Q (.ok (a, r)) := by
+  refine ⟨fun e h => ?_, fun a' r' h => ?_⟩
+  · cases h
+  · cases h; exact ⟨hr, hq⟩
+
+theorem Safe.error {α : Type} {N : Nat} {Q : α → Prop} {e : SynErr} (h : InB N e.line) :
+    Safe N Q (.error e : Except SynErr (α × List LTok)) := by
+  refine ⟨fun e' h' => ?_, fun a r h' => ?_⟩
+  · cases h'; exact h
+  · cases h'
 
 theorem LinesOk.tail {N : Nat} {t : LTok} {ts : List LTok} (h : LinesOk N (t :: ts)) : LinesOk N ts :=
   fun x hx => h x (List.mem_cons_of_mem _ hx)
@@ -35,16 +47,15 @@ theorem Safe.bind {α β : Type} {N : Nat} {Q : α → Prop} {R : β → Prop}
     {x : Except SynErr (α × List LTok)} {f : α × List LTok → Except SynErr (β × List LTok)}
     (hx : Safe N Q x) (hf : ∀ a r, LinesOk N r → Q a → Safe N R (f (a, r))) : Safe N R (x >>= f) := by
   cases x with
-  | error e => exact hx
+  | error e => exact Safe.error (hx.1 e rfl)
   | ok p =>
     obtain ⟨a, r⟩ := p
-    exact hf a r hx.1 hx.2
+    obtain ⟨h1, h2⟩ := hx.2 a r rfl
+    exact hf a r h1 h2
 
 theorem Safe.mono {α : Type} {N : Nat} {Q R : α → Prop} {x : Except SynErr (α × List LTok)}
-    (hx : Safe N Q x) (h : ∀ a, Q a → R a) : Safe N R x := by
-  cases x with
-  | error e => exact hx
-  | ok p => obtain ⟨a, r⟩ := p; exact ⟨hx.1, h a hx.2⟩
+    (hx : Safe N Q x) (h : ∀ a, Q a → R a) : Safe N R x :=
+  ⟨hx.1, fun a r e => ⟨(hx.2 a r e).1, h a (hx.2 a r e).2⟩⟩
 
 theorem skipSym_ok {N : Nat} (c : Char) {ts : List LTok} (h : LinesOk N ts) : LinesOk N (skipSym c ts) := by
   cases ts with
@@ -77,49 +88,586 @@ theorem skipKw_ok {N : Nat} (kw : String) {ts : List LTok} (h : LinesOk N ts) : 
 theorem expectSym_safe {N : Nat} (c : Char) (last : Nat) (ts : List LTok) (h : LinesOk N ts) (hl : InB N last) :
     Safe N (fun _ => True) (expectSym c last ts) := by
   cases ts with
-  | nil => exact hl
+  | nil => exact Safe.error hl
   | cons t r =>
     obtain ⟨tk, l⟩ := t
     cases tk with
     | sym d =>
       simp only [expectSym]
       split
-      · exact ⟨h.tail, trivial⟩
-      · exact h.head
-    | _ => exact h.head
+      · exact Safe.ok h.tail trivial
+      · exact Safe.error h.head
+    | _ => exact Safe.error h.head
 
 theorem expectIdent_safe {N : Nat} (last : Nat) (ts : List LTok) (h : LinesOk N ts) (hl : InB N last) :
     Safe N (fun p => InB N p.2) (expectIdent last ts) := by
   cases ts with
-  | nil => exact hl
+  | nil => exact Safe.error hl
   | cons t r =>
     obtain ⟨tk, l⟩ := t
     cases tk with
-    | ident d => exact ⟨h.tail, h.head⟩
-    | _ => exact h.head
+    | ident d => exact Safe.ok h.tail h.head
+    | _ => exact Safe.error h.head
 
 theorem expectKw_safe {N : Nat} (kw : String) (last : Nat) (ts : List LTok) (h : LinesOk N ts) (hl : InB N last) :
     Safe N (fun l => InB N l) (expectKw kw last ts) := by
   cases ts with
-  | nil => exact hl
+  | nil => exact Safe.error hl
   | cons t r =>
     obtain ⟨tk, l⟩ := t
     cases tk with
     | ident d =>
       simp only [expectKw]
       split
-      · exact ⟨h.tail, h.head⟩
-      · exact h.head
-    | _ => exact h.head
+      · exact Safe.ok h.tail h.head
+      · exact Safe.error h.head
+    | _ => exact Safe.error h.head
 
 theorem expectNum_safe {N : Nat} (last : Nat) (ts : List LTok) (h : LinesOk N ts) (hl : InB N last) :
     Safe N (fun _ => True) (expectNum last ts) := by
   cases ts with
-  | nil => exact hl
+  | nil => exact Safe.error hl
   | cons t r =>
     obtain ⟨tk, l⟩ := t
     cases tk with
-    | num d => exact ⟨h.tail, trivial⟩
-    | _ => exact h.head
+    | num d => exact Safe.ok h.tail trivial
+    | _ => exact Safe.error h.head
+
+/-! ## the productions -/
+
+theorem parseType_safe {N : Nat} : ∀ (f last : Nat) (ts : List LTok), LinesOk N ts → InB N last →
+    Safe N (fun _ => True) (parseType f last ts) := by
+  intro f
+  induction f with
+  | zero => intro last ts h hl; exact Safe.error (lineOf_ok h hl)
+  | succ f ih =>
+    intro last ts h hl
+    unfold parseType
+    split
+    · rename_i l r
+      apply Safe.bind (ih l r h.tail h.head)
+      intro t r1 hr1 _
+      dsimp only
+      split
+      · exact Safe.ok hr1.tail trivial
+      · rename_i l2 r2
+        apply Safe.bind (expectNum_safe l2 r2 hr1.tail hr1.head)
+        intro n r3 hr3 _
+        dsimp only
+        apply Safe.bind (expectSym_safe ']' l2 r3 hr3 hr1.head)
+        intro _ r4 hr4 _
+        dsimp only
+        exact Safe.ok hr4 trivial
+      · exact Safe.error (lineOf_ok hr1 h.head)
+    · rename_i s l r
+      split
+      · split
+        · rename_i l1 r1
+          apply Safe.bind (ih l1 r1 h.tail.tail h.tail.head)
+          intro t r2 hr2 _
+          dsimp only
+          apply Safe.bind (expectSym_safe ']' l1 r2 hr2 h.tail.head)
+          intro _ r3 hr3 _
+          dsimp only
+          exact Safe.ok hr3 trivial
+        · exact Safe.ok h.tail trivial
+      · split
+        · exact Safe.ok h.tail trivial
+        · split
+          · exact Safe.ok h.tail trivial
+          · split
+            · exact Safe.ok h.tail trivial
+            · split <;> exact Safe.ok h.tail trivial
+    · exact Safe.error (lineOf_ok h hl)
+
+mutual
+theorem parseValue_safe {N : Nat} : ∀ (f last : Nat) (ts : List LTok), LinesOk N ts → InB N last →
+    Safe N (fun _ => True) (parseValue f last ts)
+  | 0, last, ts, h, hl => by unfold parseValue; exact Safe.error (lineOf_ok h hl)
+  | f+1, last, ts, h, hl => by
+    unfold parseValue
+    split
+    · exact Safe.ok h.tail trivial
+    · exact Safe.ok h.tail trivial
+    · exact Safe.ok h.tail trivial
+    · rename_i l r
+      apply Safe.bind (parseItems_safe f f l r h.tail h.head)
+      intro items r1 hr1 _
+      dsimp only
+      exact Safe.ok hr1 trivial
+    · exact Safe.error (lineOf_ok h hl)
+theorem parseItems_safe {N : Nat} : ∀ (f g last : Nat) (ts : List LTok), LinesOk N ts → InB N last →
+    Safe N (fun _ => True) (parseValue.parseItems f g last ts)
+  | f, 0, last, ts, h, hl => by unfold parseValue.parseItems; exact Safe.error (lineOf_ok h hl)
+  | f, g+1, last, ts, h, hl => by
+    unfold parseValue.parseItems
+    apply Safe.bind (parseValue_safe f last ts h hl)
+    intro v r1 hr1 _
+    dsimp only
+    split
+    · rename_i l r2
+      apply Safe.bind (parseItems_safe f g l r2 hr1.tail hr1.head)
+      intro rest r3 hr3 _
+      dsimp only
+      exact Safe.ok hr3 trivial
+    · exact Safe.ok hr1.tail trivial
+    · exact Safe.error (lineOf_ok hr1 hl)
+end
+
+theorem parseArgs_safe {N : Nat} (vf : Nat) : ∀ (g last : Nat) (ts : List LTok), LinesOk N ts → InB N last →
+    Safe N (fun _ => True) (parseArgs vf g last ts) := by
+  intro g
+  induction g with
+  | zero => intro last ts h hl; exact Safe.error (lineOf_ok h hl)
+  | succ g ih =>
+    intro last ts h hl
+    unfold parseArgs
+    split
+    · exact Safe.ok h.tail trivial
+    · apply Safe.bind (parseValue_safe vf last ts h hl)
+      intro v r1 hr1 _
+      dsimp only
+      apply Safe.bind (ih last _ (skipSym_ok ',' hr1) hl)
+      intro vs r3 hr3 _
+      dsimp only
+      exact Safe.ok hr3 trivial
+
+theorem parseParams_safe {N : Nat} (vf : Nat) : ∀ (g last : Nat) (ts : List LTok), LinesOk N ts → InB N last →
+    Safe N (fun _ => True) (parseParams vf g last ts) := by
+  intro g
+  induction g with
+  | zero => intro last ts h hl; exact Safe.error (lineOf_ok h hl)
+  | succ g ih =>
+    intro last ts h hl
+    unfold parseParams
+    split
+    · rename_i s l l2 r
+      apply Safe.bind (parseArgs_safe vf _ l r h.tail.tail h.head)
+      intro args r1 hr1 _
+      dsimp only
+      apply Safe.bind (ih l _ (skipSym_ok '|' hr1) h.head)
+      intro ps r3 hr3 _
+      dsimp only
+      exact Safe.ok hr3 trivial
+    · exact Safe.ok h trivial
+
+theorem parseFields_safe {N : Nat} (vf : Nat) : ∀ (g last : Nat) (ts : List LTok), LinesOk N ts → InB N last →
+    Safe N (fun _ => True) (parseFields vf g last ts) := by
+  intro g
+  induction g with
+  | zero => intro last ts h hl; exact Safe.error (lineOf_ok h hl)
+  | succ g ih =>
+    intro last ts h hl
+    unfold parseFields
+    split
+    · exact Safe.ok h trivial
+    · apply Safe.bind (expectIdent_safe last ts h hl)
+      intro p r1 hr1 hp
+      obtain ⟨name, l⟩ := p
+      dsimp only at hp ⊢
+      apply Safe.bind (expectSym_safe '@' l r1 hr1 hp)
+      intro _ r2 hr2 _
+      dsimp only
+      apply Safe.bind (expectNum_safe l r2 hr2 hp)
+      intro id r3 hr3 _
+      dsimp only
+      apply Safe.bind (expectSym_safe ':' l r3 hr3 hp)
+      intro _ r4 hr4 _
+      dsimp only
+      apply Safe.bind (parseType_safe vf l r4 hr4 hp)
+      intro ty r5 hr5 _
+      dsimp only
+      apply Safe.bind (parseParams_safe vf _ l _ (skipSym_ok '|' hr5) hp)
+      intro ps r7 hr7 _
+      dsimp only
+      apply Safe.bind (expectSym_safe ',' l r7 hr7 hp)
+      intro _ r8 hr8 _
+      dsimp only
+      apply Safe.bind (ih l r8 hr8 hp)
+      intro fs r9 hr9 _
+      dsimp only
+      exact Safe.ok hr9 trivial
+
+theorem parseEnumItems_safe {N : Nat} (vf : Nat) : ∀ (g last : Nat) (ts : List LTok), LinesOk N ts → InB N last →
+    Safe N (fun es => ∀ x ∈ es, InB N x.2.2) (parseEnumItems vf g last ts) := by
+  intro g
+  induction g with
+  | zero => intro last ts h hl; exact Safe.error (lineOf_ok h hl)
+  | succ g ih =>
+    intro last ts h hl
+    unfold parseEnumItems
+    split
+    · exact Safe.ok h (by simp)
+    · apply Safe.bind (expectIdent_safe last ts h hl)
+      intro p r1 hr1 hp
+      obtain ⟨name, l⟩ := p
+      dsimp only at hp ⊢
+      apply Safe.bind (expectSym_safe '=' l r1 hr1 hp)
+      intro _ r2 hr2 _
+      dsimp only
+      apply Safe.bind (parseValue_safe vf l r2 hr2 hp)
+      intro v r3 hr3 _
+      dsimp only
+      apply Safe.bind (expectSym_safe ',' l r3 hr3 hp)
+      intro _ r4 hr4 _
+      dsimp only
+      apply Safe.bind (ih l r4 hr4 hp)
+      intro es r5 hr5 hes
+      dsimp only
+      exact Safe.ok hr5 (by
+        intro x hx
+        rcases List.mem_cons.mp hx with rfl | hx
+        · exact hp
+        · exact hes x hx)
+
+theorem parseExtFields_safe {N : Nat} (vf : Nat) : ∀ (g last : Nat) (ts : List LTok), LinesOk N ts → InB N last →
+    Safe N (fun _ => True) (parseExtFields vf g last ts) := by
+  intro g
+  induction g with
+  | zero => intro last ts h hl; exact Safe.error (lineOf_ok h hl)
+  | succ g ih =>
+    intro last ts h hl
+    unfold parseExtFields
+    split
+    · exact Safe.ok h trivial
+    · apply Safe.bind (expectIdent_safe last ts h hl)
+      intro p r1 hr1 hp
+      obtain ⟨name, l⟩ := p
+      dsimp only at hp ⊢
+      apply Safe.bind (expectSym_safe ':' l r1 hr1 hp)
+      intro _ r2 hr2 _
+      dsimp only
+      apply Safe.bind (parseValue_safe vf l r2 hr2 hp)
+      intro v r3 hr3 _
+      dsimp only
+      apply Safe.bind (expectSym_safe ',' l r3 hr3 hp)
+      intro _ r4 hr4 _
+      dsimp only
+      apply Safe.bind (ih l r4 hr4 hp)
+      intro fs r5 hr5 _
+      dsimp only
+      exact Safe.ok hr5 trivial
+
+theorem parseImplItems_safe {N : Nat} (vf : Nat) : ∀ (g last : Nat) (ts : List LTok), LinesOk N ts → InB N last →
+    Safe N (fun _ => True) (parseImplItems vf g last ts) := by
+  intro g
+  induction g with
+  | zero => intro last ts h hl; exact Safe.error (lineOf_ok h hl)
+  | succ g ih =>
+    intro last ts h hl
+    unfold parseImplItems
+    split
+    · exact Safe.ok h trivial
+    · rename_i l name ln lo r
+      apply Safe.bind (parseExtFields_safe vf _ l r h.tail.tail.tail h.head)
+      intro fs r1 hr1 _
+      dsimp only
+      split
+      · exact Safe.error h.head
+      · apply Safe.bind (expectSym_safe '}' l r1 hr1 h.head)
+        intro _ r2 hr2 _
+        dsimp only
+        apply Safe.bind (expectSym_safe ',' l r2 hr2 h.head)
+        intro _ r3 hr3 _
+        dsimp only
+        apply Safe.bind (ih l r3 hr3 h.head)
+        intro is r4 hr4 _
+        dsimp only
+        exact Safe.ok hr4 trivial
+    · apply Safe.bind (expectIdent_safe last ts h hl)
+      intro p r1 hr1 hp
+      obtain ⟨name, l⟩ := p
+      dsimp only at hp ⊢
+      apply Safe.bind (expectSym_safe ':' l r1 hr1 hp)
+      intro _ r2 hr2 _
+      dsimp only
+      apply Safe.bind (parseValue_safe vf l r2 hr2 hp)
+      intro v r3 hr3 _
+      dsimp only
+      apply Safe.bind (expectSym_safe ',' l r3 hr3 hp)
+      intro _ r4 hr4 _
+      dsimp only
+      apply Safe.bind (ih l r4 hr4 hp)
+      intro is r5 hr5 _
+      dsimp only
+      exact Safe.ok hr5 trivial
+
+theorem parseMethods_safe {N : Nat} : ∀ (g last : Nat) (ts : List LTok), LinesOk N ts → InB N last →
+    Safe N (fun _ => True) (parseMethods g last ts) := by
+  intro g
+  induction g with
+  | zero => intro last ts h hl; exact Safe.error (lineOf_ok h hl)
+  | succ g ih =>
+    intro last ts h hl
+    unfold parseMethods
+    split
+    · exact Safe.ok h trivial
+    · apply Safe.bind (expectKw_safe "method" last ts h hl)
+      intro l r0 hr0 hlb
+      dsimp only
+      apply Safe.bind (expectIdent_safe l r0 hr0 hlb)
+      intro p r1 hr1 _
+      dsimp only
+      apply Safe.bind (expectSym_safe '(' l r1 hr1 hlb)
+      intro _ r2 hr2 _
+      dsimp only
+      apply Safe.bind (expectIdent_safe l r2 hr2 hlb)
+      intro p2 r3 hr3 _
+      dsimp only
+      apply Safe.bind (expectSym_safe ')' l r3 hr3 hlb)
+      intro _ r4 hr4 _
+      dsimp only
+      apply Safe.bind (expectSym_safe '@' l r4 hr4 hlb)
+      intro _ r5 hr5 _
+      dsimp only
+      apply Safe.bind (expectNum_safe l r5 hr5 hlb)
+      intro id r6 hr6 _
+      dsimp only
+      apply Safe.bind (expectKw_safe "returns" l r6 hr6 hlb)
+      intro _ r7 hr7 _
+      dsimp only
+      apply Safe.bind (expectIdent_safe l r7 hr7 hlb)
+      intro p3 r8 hr8 _
+      dsimp only
+      apply Safe.bind (expectSym_safe ',' l r8 hr8 hlb)
+      intro _ r9 hr9 _
+      dsimp only
+      apply Safe.bind (ih l r9 hr9 hlb)
+      intro ms r10 hr10 _
+      dsimp only
+      exact Safe.ok hr10 trivial
+
+theorem parseModPath_safe {N : Nat} : ∀ (g last : Nat) (ts : List LTok), LinesOk N ts → InB N last →
+    Safe N (fun _ => True) (parseModPath g last ts) := by
+  intro g
+  induction g with
+  | zero => intro last ts h hl; exact Safe.error (lineOf_ok h hl)
+  | succ g ih =>
+    intro last ts h hl
+    unfold parseModPath
+    apply Safe.bind (expectIdent_safe last ts h hl)
+    intro p r1 hr1 hp
+    obtain ⟨s, l⟩ := p
+    dsimp only at hp ⊢
+    split
+    · rename_i ld r2
+      apply Safe.bind (ih l r2 hr1.tail hp)
+      intro ps r3 hr3 _
+      dsimp only
+      exact Safe.ok hr3 trivial
+    · exact Safe.ok hr1 trivial
+
+theorem parseDecl_safe {N : Nat} (last : Nat) (ts : List LTok) (h : LinesOk N ts) (hl : InB N last) :
+    Safe N (fun _ => True) (parseDecl last ts) := by
+  unfold parseDecl
+  split
+  · -- struct
+    rename_i l r
+    apply Safe.bind (expectIdent_safe l r h.tail h.head)
+    intro p r1 hr1 _
+    dsimp only
+    apply Safe.bind (expectSym_safe '{' l r1 hr1 h.head)
+    intro _ r2 hr2 _
+    dsimp only
+    apply Safe.bind (parseFields_safe _ _ l r2 hr2 h.head)
+    intro fs r3 hr3 _
+    dsimp only
+    split
+    · exact Safe.error (lineOf_ok hr3 h.head)
+    · apply Safe.bind (expectSym_safe '}' l r3 hr3 h.head)
+      intro _ r4 hr4 _
+      dsimp only
+      exact Safe.ok hr4 trivial
+  · -- enum
+    rename_i l r
+    apply Safe.bind (expectIdent_safe l r h.tail h.head)
+    intro p r1 hr1 _
+    dsimp only
+    apply Safe.bind (expectSym_safe '{' l r1 hr1 h.head)
+    intro _ r2 hr2 _
+    dsimp only
+    apply Safe.bind (parseEnumItems_safe _ _ l r2 hr2 h.head)
+    intro es r3 hr3 _
+    dsimp only
+    apply Safe.bind (expectSym_safe '}' l r3 hr3 h.head)
+    intro _ r4 hr4 _
+    dsimp only
+    exact Safe.ok hr4 trivial
+  · -- impl
+    rename_i l r
+    apply Safe.bind (expectIdent_safe l r h.tail h.head)
+    intro p r1 hr1 _
+    dsimp only
+    apply Safe.bind (expectKw_safe "for" l r1 hr1 h.head)
+    intro _ r2 hr2 _
+    dsimp only
+    apply Safe.bind (expectIdent_safe l r2 hr2 h.head)
+    intro p2 r3 hr3 _
+    dsimp only
+    have hr4 := skipKw_ok "as" hr3 (N := N)
+    generalize skipKw "as" r3 = r4 at hr4 ⊢
+    have key : ∀ (nm : Option String) (r5 : List LTok), LinesOk N r5 →
+        Safe N (fun _ => True) (do
+          let (_, r6) ← expectSym '{' l r5
+          let (is, r7) ← parseImplItems (2 * r6.length + 2) (r6.length + 1) l r6
+          if is.isEmpty then (.error ⟨"impl needs a field", lineOf r7 l⟩ : Except SynErr (PDecl × List LTok)) else
+          let (_, r8) ← expectSym '}' l r7
+          .ok (.impl p.1 p2.1 nm is l, r8)) := by
+      intro nm r5 hr5
+      apply Safe.bind (expectSym_safe '{' l r5 hr5 h.head)
+      intro _ r6 hr6 _
+      dsimp only
+      apply Safe.bind (parseImplItems_safe _ _ l r6 hr6 h.head)
+      intro is r7 hr7 _
+      dsimp only
+      split
+      · exact Safe.error (lineOf_ok hr7 h.head)
+      · apply Safe.bind (expectSym_safe '}' l r7 hr7 h.head)
+        intro _ r8 hr8 _
+        dsimp only
+        exact Safe.ok hr8 trivial
+    split
+    · rename_i n ln r'
+      exact key (some n) r' hr4.tail
+    · exact key none r4 hr4
+  · -- service
+    rename_i l r
+    apply Safe.bind (expectIdent_safe l r h.tail h.head)
+    intro p r1 hr1 _
+    dsimp only
+    apply Safe.bind (expectSym_safe '@' l r1 hr1 h.head)
+    intro _ r2 hr2 _
+    dsimp only
+    apply Safe.bind (expectNum_safe l r2 hr2 h.head)
+    intro id r3 hr3 _
+    dsimp only
+    apply Safe.bind (expectSym_safe '{' l r3 hr3 h.head)
+    intro _ r4 hr4 _
+    dsimp only
+    apply Safe.bind (parseMethods_safe _ l r4 hr4 h.head)
+    intro ms r5 hr5 _
+    dsimp only
+    split
+    · exact Safe.error (lineOf_ok hr5 h.head)
+    · apply Safe.bind (expectSym_safe '}' l r5 hr5 h.head)
+      intro _ r6 hr6 _
+      dsimp only
+      exact Safe.ok hr6 trivial
+  · -- device
+    rename_i l r
+    apply Safe.bind (expectIdent_safe l r h.tail h.head)
+    intro p r1 hr1 _
+    dsimp only
+    apply Safe.bind (expectSym_safe '{' l r1 hr1 h.head)
+    intro _ r2 hr2 _
+    dsimp only
+    apply Safe.bind (parseExtFields_safe _ _ l r2 hr2 h.head)
+    intro fs r3 hr3 _
+    dsimp only
+    split
+    · exact Safe.error (lineOf_ok hr3 h.head)
+    · apply Safe.bind (expectSym_safe '}' l r3 hr3 h.head)
+      intro _ r4 hr4 _
+      dsimp only
+      exact Safe.ok hr4 trivial
+  · -- mod
+    rename_i l r
+    apply Safe.bind (parseModPath_safe _ l r h.tail h.head)
+    intro ps r1 hr1 _
+    dsimp only
+    apply Safe.bind (expectSym_safe ';' l r1 hr1 h.head)
+    intro _ r2 hr2 _
+    dsimp only
+    exact Safe.ok hr2 trivial
+  · exact Safe.error (lineOf_ok h hl)
+
+theorem parseDecls_lines {N : Nat} : ∀ (g last : Nat) (ts : List LTok), LinesOk N ts → InB N last →
+    ∀ e, parseDecls g last ts = .error e → InB N e.line := by
+  intro g
+  induction g with
+  | zero => intro last ts h hl e he; simp only [parseDecls] at he; cases he; exact hl
+  | succ g ih =>
+    intro last ts h hl e he
+    cases ts with
+    | nil => simp [parseDecls] at he
+    | cons t r =>
+      simp only [parseDecls, bind, Except.bind] at he
+      have hs := parseDecl_safe last (t :: r) h hl
+      cases hd : parseDecl last (t :: r) with
+      | error e' =>
+        rw [hd] at he
+        simp only [Except.error.injEq] at he
+        rw [← he]
+        exact hs.1 e' hd
+      | ok p =>
+        obtain ⟨d, r'⟩ := p
+        rw [hd] at he
+        simp only at he
+        have hr' := (hs.2 d r' hd).1
+        cases hds : parseDecls g (lineOf (t :: r) last) r' with
+        | error e'' =>
+          rw [hds] at he
+          simp only [Except.error.injEq] at he
+          rw [← he]
+          exact ih _ r' hr' (lineOf_ok h hl) e'' hds
+        | ok ds => rw [hds] at he; cases he
+
+/-- every line a syntax error of the reference parser cites lies within the token lines -/
+theorem parseFile_lines {N : Nat} (ts : List LTok) (h : LinesOk N ts) (hN : 1 ≤ N) (e : SynErr)
+    (he : parseFile ts = .error e) : InB N e.line := by
+  unfold parseFile at he
+  have h1 : InB N 1 := ⟨Nat.le_refl 1, hN⟩
+  have s1 := expectKw_safe "version" 1 ts h h1
+  cases hk : expectKw "version" 1 ts with
+  | error e' =>
+    rw [hk] at he
+    simp only [bind, Except.bind, Except.error.injEq] at he
+    rw [← he]
+    exact s1.1 e' hk
+  | ok p =>
+    obtain ⟨l, r0⟩ := p
+    obtain ⟨hr0, hlb⟩ := s1.2 l r0 hk
+    rw [hk] at he
+    simp only [bind, Except.bind] at he
+    have s2 := expectSym_safe ':' l r0 hr0 hlb
+    cases hc : expectSym ':' l r0 with
+    | error e' =>
+      rw [hc] at he
+      simp only [Except.error.injEq] at he
+      rw [← he]
+      exact s2.1 e' hc
+    | ok q =>
+      obtain ⟨u, r1⟩ := q
+      have hr1 := (s2.2 u r1 hc).1
+      rw [hc] at he
+      simp only at he
+      split at he
+      · rename_i s ls r2 
+        cases hds : parseDecls (r2.length + 1) l r2 with
+        | error e'' =>
+          rw [hds] at he
+          simp only [Except.error.injEq] at he
+          rw [← he]
+          exact parseDecls_lines _ l r2 hr1.tail hlb e'' hds
+        | ok ds => rw [hds] at he; cases he
+      · cases he
+        exact lineOf_ok hr1 hlb
+
+/-- **every line the reference front end cites for a lexical or syntax error exists in the
+source**: between 1 and the number of lines -/
+theorem parseText_lines (src : String) (e : SynErr) (he : parseText src = .error e) :
+    1 ≤ e.line ∧ e.line ≤ 1 + nl src.toList := by
+  unfold parseText at he
+  obtain ⟨hok, herr⟩ := lex_lines src
+  cases hl : lex src with
+  | error e' =>
+    rw [hl] at he
+    simp only [bind, Except.bind, Except.error.injEq] at he
+    rw [← he]
+    exact herr e' hl
+  | ok ts =>
+    rw [hl] at he
+    simp only [bind, Except.bind] at he
+    exact parseFile_lines ts (fun t ht => hok ts hl t ht) (by omega) e he
 
 end Fcp.Syntax
